@@ -215,6 +215,16 @@ def main():
     wd = common.scratch("c12-")
     try:
         st, exp = run_all(v, hists, wd, tier)
+        # guest threads (wasi-threads) inside fd_pwrite / fd_pread / fd_write / fd_read at the same time, each on a file of its own: every
+        # thread's counts and bytes are those of its own vector
+        for asan_ in (True, False):
+            tio, tse, trc = wasi.run_threads_io(wd, tier, asan=asan_)
+            if tio is None:
+                v.deviation(wasi.asan_sig(tse) or "io:threads:crash", {"rc": trc, "stderr": tse[-800:]})
+            elif tio["bad_io"]:
+                v.deviation("io:threads:wrong-transfer", tio)
+            else:
+                st["compared"] += tio["calls"]
         # host faults: the host function that carries out a call fails (every error POSIX lists for it, in turn): the call must
         # return the WASI number of that error, store nothing, and leave position, descriptor numbering and files as they were
         frng = random.Random(SEED + 12012)
